@@ -356,7 +356,7 @@ def printStmts (tbl : Nat → Bool) (s : Option (List (Option Node))) (ps : Prin
 def printBlock (tbl : Nat → Bool) (l : List (Option Node)) (ps : PrintState) : PR :=
   let old := ps.exprPrec
   let ps := if ps.indentLevel > 0 then ps.print [123] else ps
-  let ps := { ps with indentLevel := ps.indentLevel + 1, exprPrec := prioLOWEST }
+  let ps := { ps with indentLevel := ps.indentLevel + 1, exprPrec := prioLOWEST, prev := none }
   match printStmtLoop tbl l ps 0 with
   | .error e => .error e
   | .ok ps =>
